@@ -7,6 +7,7 @@ package main
 
 import (
 	"fmt"
+	"go/token"
 	"go/types"
 	"reflect"
 	"sort"
@@ -363,6 +364,19 @@ func ruleShadows(w *World, c *Check, rule string) {
 				c.Decide(same, rule, sr.shadow, "tags "+f.Name(), w.Pos(f.Pos()), "shadow and public field carry the same ASN.1 tag", fmt.Sprintf("shadow `%s` vs public `%s`", stag, ptag))
 			}
 		}
+		// type agreement: a shadow field of a narrower or different type silently truncates or rejects values
+		for i := 0; i < ss.NumFields(); i++ {
+			f := ss.Field(i)
+			j, ok := pub[f.Name()]
+			if !ok {
+				continue
+			}
+			if _, isRaw := sr.raw[f.Name()]; isRaw {
+				continue
+			}
+			c.Decide(types.Identical(f.Type().Underlying(), ps.Field(j).Type().Underlying()), rule, sr.shadow, "type "+f.Name(), w.Pos(f.Pos()), "shadow and public field have the same Go type",
+				fmt.Sprintf("shadow %s vs public %s", types.TypeString(f.Type(), nil), types.TypeString(ps.Field(j).Type(), nil)))
+		}
 		// marshal coverage
 		mf := w.Func(sr.marshal)
 		if mf == nil {
@@ -589,6 +603,7 @@ func runC13(w *World, c *Check) {
 	c.Rule("C13.apptags", "APPLICATION tag numbers and message-type constants equal RFC 4120; encode and decode side of a type agree", 60)
 	c.Rule("C13.shadow", "shadow structs agree with their public twins; Marshal/Unmarshal cover every wire field; raw tickets carry the RFC's context tag", 100)
 	c.Rule("C13.wire", "every asn1.Marshal call site encodes only tagged fields", 20)
+	c.Rule("C13.processing", "decrypting, verifying or inspecting a decoded message stores only into its non-wire helper fields: what was decoded is what is re-encoded, whatever was done in between", 7)
 	c.Rule("C13.flags", "flag i lives in byte i/8, bit 7-(i-8*(i/8)) in SetFlag, UnsetFlag and IsFlagSet; flags are 32 bits", 4)
 	c.Rule("C13.framing", "SPNEGO and KRB5 tokens are OID‖body in APPLICATION 0 on both sides; NegTokenInit/Resp are context tags 0/1 on both sides; ticket sequences are SEQUENCE (0x30)", 7)
 
@@ -596,6 +611,8 @@ func runC13(w *World, c *Check) {
 	ruleTagTable(w, c, "C13.tags", asnRefNoteOnly, true)
 	ruleAppTags(w, c, "C13.apptags")
 	ruleShadows(w, c, "C13.shadow")
+	ruleProcessingKeepsWire(w, c, "C13.processing")
+	ruleUint32Fields(w, c, "C13.shadow")
 	ruleWireAudit(w, c, "C13.wire")
 
 	// ---- flags ---------------------------------------------------------------------
@@ -714,4 +731,138 @@ func runC13(w *World, c *Check) {
 		{Name: "skip-header", Desc: "decoding skips one tag octet plus the length octets of the same header", Callee: `asn1tools\.GetNumberBytesInLengthHeader`, Want: `asn1tools\.GetNumberBytesInLengthHeader\(in\.Bytes\)`},
 	})
 	_ = forms
+}
+
+// RFC 4120 UInt32 fields (nonce, seq-number): the Go field must hold 0 … 2^32-1 on every platform
+// the module supports for them to round-trip; int32 cannot, int can on 64-bit targets only (noted).
+var uint32WireFields = []string{"messages.KDCReqBody.Nonce", "messages.marshalKDCReqBody.Nonce", "messages.EncKDCRepPart.Nonce",
+	"messages.EncKrbPrivPart.SequenceNumber", "messages.EncAPRepPart.SequenceNumber", "messages.KRBSafeBody.SequenceNumber", "types.Authenticator.SeqNumber"}
+
+func ruleUint32Fields(w *World, c *Check, rule string) {
+	for _, fk := range uint32WireFields {
+		i := strings.LastIndex(fk, ".")
+		pkg, name := splitTypeKey(fk[:i])
+		st := w.StructOf(pkg, name)
+		if st == nil {
+			c.Missing(rule, fk[:i])
+			continue
+		}
+		found := false
+		for k := 0; k < st.NumFields(); k++ {
+			f := st.Field(k)
+			if f.Name() != fk[i+1:] {
+				continue
+			}
+			found = true
+			b, _ := f.Type().Underlying().(*types.Basic)
+			ok := b != nil && (b.Kind() == types.Int || b.Kind() == types.Int64 || b.Kind() == types.Uint32 || b.Kind() == types.Uint64 || b.Kind() == types.Uint)
+			c.Decide(ok, rule, fk[:i], "uint32 "+f.Name(), w.Pos(f.Pos()), f.Name()+" is an RFC 4120 UInt32: its Go type holds 0 … 2^32-1", "Go type "+types.TypeString(f.Type(), nil)+" cannot hold values from 2^31")
+		}
+		if !found {
+			c.Fail(rule, fk[:i], "uint32 "+fk[i+1:], "-", "the UInt32 field exists", "no such field")
+		}
+	}
+}
+
+// ruleProcessingKeepsWire: methods that process a decoded message in place (Decrypt*, Verify,
+// Valid, GetPACType, Process*) may store into the receiver's helper fields (reference tag -1:
+// DecryptedEncPart, Authenticator …) but not into a field that is encoded: "re-encoding a decoded
+// message reproduces the original bytes regardless of what was done in between".
+func ruleProcessingKeepsWire(w *World, c *Check, rule string) {
+	procRe := compileRe(`^(Decrypt\w*|Verify\w*|Valid|GetPACType|Process\w*|IsReplay)$`)
+	wireOf := func(st types.Type) map[string]int {
+		n, ok := st.(*types.Named)
+		if !ok || n.Obj().Pkg() == nil {
+			return nil
+		}
+		key := relPkg(n.Obj().Pkg().Path()) + "." + n.Obj().Name()
+		rows, ok := asnRef[key]
+		if !ok {
+			return nil
+		}
+		m := map[string]int{}
+		for _, r := range rows {
+			m[r.Name] = r.Tag
+		}
+		return m
+	}
+	for _, fn := range w.ModuleFuncs() {
+		if fn.Signature.Recv() == nil || !procRe.MatchString(fn.Name()) || len(fn.Params) == 0 {
+			continue
+		}
+		pt, ok := fn.Signature.Recv().Type().(*types.Pointer)
+		if !ok {
+			continue
+		}
+		top := wireOf(pt.Elem())
+		if top == nil {
+			// a type that embeds a table type (ASRep, TGSRep embed KDCRepFields)
+			if st, isSt := pt.Elem().Underlying().(*types.Struct); isSt {
+				for i := 0; i < st.NumFields(); i++ {
+					if st.Field(i).Embedded() && wireOf(st.Field(i).Type()) != nil {
+						top = map[string]int{}
+					}
+				}
+			}
+			if top == nil {
+				continue
+			}
+		}
+		fk := FuncKey(fn)
+		recv := fn.Params[0]
+		var bad []string
+		var pos ssa.Instruction
+		for _, b := range fn.Blocks {
+			for _, in := range b.Instrs {
+				st, isSt := in.(*ssa.Store)
+				if !isSt {
+					continue
+				}
+				// walk the address up to the receiver
+				var chain []*ssa.FieldAddr
+				v := st.Addr
+				for {
+					if fa, isFA := v.(*ssa.FieldAddr); isFA {
+						chain = append([]*ssa.FieldAddr{fa}, chain...)
+						v = fa.X
+						continue
+					}
+					if ia, isIA := v.(*ssa.IndexAddr); isIA {
+						v = ia.X
+						continue
+					}
+					if u, isU := v.(*ssa.UnOp); isU && u.Op == token.MUL {
+						v = u.X // element of a slice field: load of the slice header
+						continue
+					}
+					break
+				}
+				if v != recv || len(chain) == 0 {
+					continue
+				}
+				// the first field below the receiver that belongs to a table type
+				for _, fa := range chain {
+					stt := fa.X.Type().Underlying().(*types.Pointer).Elem()
+					fld := stt.Underlying().(*types.Struct).Field(fa.Field)
+					if fld.Embedded() {
+						continue
+					}
+					tab := wireOf(stt)
+					if tab == nil {
+						break
+					}
+					if tag, known := tab[fld.Name()]; known && tag >= 0 {
+						bad = append(bad, fld.Name())
+						pos = in
+					}
+					break
+				}
+			}
+		}
+		if len(bad) > 0 {
+			c.Fail(rule, fk, "wire-fields-kept", w.Pos(InstrPos(pos)), "processing stores only into helper fields of the message", fmt.Sprintf("stores into the encoded field(s) %v of the receiver: a later Marshal no longer reproduces what was decoded", bad))
+		} else {
+			c.Ok(rule, fk, "wire-fields-kept", w.Pos(fn.Pos()), "processing stores only into helper fields of the message")
+		}
+	}
 }
